@@ -120,7 +120,7 @@ def main():
 
 
 def run():
-    ids = sys.argv[1:] or sorted(x for x in os.listdir(SEEDED) if os.path.isdir(os.path.join(SEEDED, x)))
+    ids = sys.argv[1:] or sorted(x for x in os.listdir(SEEDED) if os.path.isdir(os.path.join(SEEDED, x)) and re.match(r"C\d\d-\d+$", x))
     with cf.ThreadPoolExecutor(max_workers=int(os.environ.get("SEEDM_PAR", "3"))) as ex:
         for sid, meta in ex.map(one, ids):
             if "error" in meta:
